@@ -1,4 +1,5 @@
 import SctpVerif.Proofs.NetSys.PRTake
+import SctpVerif.Proofs.NetSys.PRLost
 import SctpVerif.Proofs.NetSys.Proj
 /-!
 # C07 — the composition with FORWARD-TSN: sender half + adversarial network + receiver half (`NetSysPR`)
@@ -128,6 +129,88 @@ theorem C07_netsys_skip_all_pushed (P : Params) (ops : List Op) (hok : RunOk P o
   generalize BitVec.ofNat 32 n = y at e2 d1 ⊢
   generalize BitVec.ofNat 32 i = z at e3 d2 ⊢
   bv_omega
+
+/-! ## nothing that is not abandoned is lost: the receive half with skips, and its transport to NetSysPR -/
+
+/-- ✱ **Receive half, ordered DATA, WITH FORWARD-TSN** (the association-level form of `C07_reasm_skip_then_deliver`; the
+simulation of `Proofs/Receiver/Prefix.lean` redone with the skip step: `Proofs/Receiver/PrefixSkip*.lean`). Peer described by
+the universe `U` (per stream a message list cut into fragments, all TSNs `t + offset`, fewer than 2^31 in all, as in
+`C01_receiver_prefix`). Take ANY op list — packets bundling, in any order, any number of times, with any loss, DATA fragments
+of the universe and FORWARD-TSN chunks (any stream lists), interleaved with reads of any size on any stream object, `accept`,
+`open`, `gather`, clock ticks, state changes — such that
+* `GoodChunkS`: the TSN of every DATA chunk names no other fragment of the stream under study (a TSN names one fragment:
+  `C01_wire_tsn_stable`), the new cumulative TSN of every FORWARD-TSN is a TSN of the universe;
+* `FwdOk`: every FORWARD-TSN the receiver TAKES (not stale, streams creatable) satisfies the honest-sender premise for the
+  stream — each entry naming it is the SSN of a message `L` of the stream, and every message up to `L` that is not abandoned
+  (`K`) has had ALL its fragments handed to the reassembly queue before (`pushedT`: `handleData` reached
+  `pushPayloadDataToStream`) — this is what `C07_netsys_skip_all_pushed` proves of the composed system;
+* fewer than 2^15 messages on the stream (D15, in its plain form) and no entry limit (`maxEntries = 0`, the default).
+Then the successful reads on the stream are `D.map (message ·)` for a STRICTLY INCREASING list `D` of message indices: a
+subsequence of the written messages, in write order, each at most once, each with its PPI and whole payload (the duplicate
+filter of the receive queue is part of the model: duplicated, reordered, late DATA and stale / repeated FORWARD-TSN change
+nothing); and every message that is not abandoned and all of whose fragments were handed over has been read or sits
+complete in the queue, where the next reads find it. -/
+theorem C07_receiver_skip_then_deliver (U : Receiver.UnivS) (S : Reasm.Sender) (hS : S ∈ U.senders) (hlen : S.msgs.length < 2^15)
+    (K : Nat → Bool) (maxBuf : BitVec 32) (il f g : Bool) (am : Int) (ops : List Receiver.Op)
+    (hgood : ∀ cs, Receiver.Op.pkt cs ∈ ops → ∀ ch ∈ cs, Receiver.GoodChunkS U S ch)
+    (hfw : Receiver.FwdOk S K (Receiver.init maxBuf 0 il f g am U.t) [] ops) :
+    ∃ D : List Nat,
+      Receiver.delivs S.si (Receiver.init maxBuf 0 il f g am U.t) ops = D.map (fun k => Reasm.Msg.out (S.msg k)) ∧
+      D.Pairwise (· < ·) ∧ (∀ k ∈ D, k < S.msgs.length) ∧
+      (Receiver.delivs S.si (Receiver.init maxBuf 0 il f g am U.t) ops).Sublist (S.msgs.map Reasm.Msg.out) ∧
+      (∀ k, k < S.msgs.length → K k = false →
+        (∀ i, i < S.nf k → (S.dataFrag k i).tsn ∈ Receiver.pushedT (Receiver.init maxBuf 0 il f g am U.t) ops) →
+        k ∈ D ∨ S.concSet (k, List.range (S.nf k)) ∈
+          (Receiver.qOf (Receiver.run (Receiver.init maxBuf 0 il f g am U.t) ops) S.si).ordered) :=
+  Receiver.skip_receiver U S hS hlen K maxBuf il f g am ops hgood hfw
+
+/-- **NetSysPR, ordered DATA: reads are a subsequence of the writes, nothing that is not abandoned is lost — PARTIAL.**
+FULL STATEMENT (not proved): for every run of NetSysPR with `RunOk`, `TsnFifo`, `NoReset`, the D15 window and a
+message-contiguous selection, on every ordered stream `si` the reads `readsOn P si` are a subsequence of `writesOn P si` in
+write order, each message at most once and intact, containing every message that is not abandoned and all of whose fragments
+were handed over; a PREFIX on streams that are never given a partially reliable policy.
+PROVED HERE: exactly that conclusion — for the message list of a universe `U` with `S.si = si` — for EVERY run of NetSysPR
+(any SACKs, any loss / duplication / reordering of DATA and FORWARD-TSN items), from two premises on the run that are
+stated, not derived:
+* `hgood` — the universe link: every history item a `deliver` hands over decodes to a chunk that is `GoodChunkS U S`
+  (for DATA: `toWire P c` is a fragment `S'.dataFrag k i` of the universe whose TSN names no other fragment of `S`). For
+  reliable runs `Proofs/NetSys/Data.lean` derives this from `wire_ident` / `SelContig` with `U = sendersD`, `S.msgs.map out =
+  writesOn`; that derivation (≈ 250 lines, incl. the TSN injectivity of moved fragments) has not been redone over `NetSysPR`
+  with partially reliable streams — MISSING PIECE 1;
+* `hfw` — the honest-sender premise for every FORWARD-TSN the receiver takes, in the receiver's vocabulary (`FwdOk` on the
+  receiver projection `rcvOps`). `C07_netsys_skip_all_pushed` proves its content in the sender's vocabulary (message
+  identities, TSNs in `pushed`; `pushed_eq`: `pushed` IS `pushedT` of the projection); translating an entry's SSN into the index
+  `L` of the universe and "fragment written before" into `k ≤ L` needs the same universe link — MISSING PIECE 2.
+Also restricted: fewer than 2^15 messages on the stream in all (instead of a sliding window), `maxEntries = 0`, DATA / FORWARD-TSN
+(not I-DATA / I-FORWARD-TSN), kept-complete instead of read-after-drain. -/
+theorem C07_netsys_nothing_lost_partial (P : Params) (ops : List Op) (hme : P.maxEntries = 0)
+    (U : Receiver.UnivS) (hUt : U.t = P.tsn) (S : Reasm.Sender) (hS : S ∈ U.senders) (hlen : S.msgs.length < 2^15) (K : Nat → Bool)
+    (hgood : ∀ o1 is o2, ops = o1 ++ Op.deliver is :: o2 →
+      ∀ x ∈ pick (run P (init P) o1).wire is, Receiver.GoodChunkS U S (inChunk P x.1 x.2))
+    (hfw : Receiver.FwdOk S K (init P).rcv [] (rcvOps P (init P) ops)) :
+    ∃ D : List Nat,
+      readsOn P S.si (init P) ops = D.map (fun k => Reasm.Msg.out (S.msg k)) ∧
+      D.Pairwise (· < ·) ∧ (∀ k ∈ D, k < S.msgs.length) ∧
+      (readsOn P S.si (init P) ops).Sublist (S.msgs.map Reasm.Msg.out) ∧
+      (∀ k, k < S.msgs.length → K k = false →
+        (∀ i, i < S.nf k → (S.dataFrag k i).tsn ∈ pushed P (init P) ops) →
+        k ∈ D ∨ S.concSet (k, List.range (S.nf k)) ∈ (Receiver.qOf (run P (init P) ops).rcv S.si).ordered) := by
+  have hinit : (init P).rcv = Receiver.init P.maxBuf 0 P.cfg.useInterleaving P.useFwd P.useIFwd P.ackMode U.t := by
+    rw [hUt, ← hme]; rfl
+  rw [hinit] at hfw
+  have hg : ∀ cs, Receiver.Op.pkt cs ∈ rcvOps P (init P) ops → ∀ ch ∈ cs, Receiver.GoodChunkS U S ch := by
+    intro cs hcs ch hch
+    obtain ⟨o1, is, o2, e, rfl⟩ := rcvOps_pkt P (init P) ops cs hcs
+    simp only [packetOf, List.mem_map] at hch
+    obtain ⟨x, hx, rfl⟩ := hch
+    exact hgood o1 is o2 e x hx
+  obtain ⟨D, d1, d2, d3, d4, d5⟩ := Receiver.skip_receiver U S hS hlen K P.maxBuf P.cfg.useInterleaving P.useFwd P.useIFwd P.ackMode
+    (rcvOps P (init P) ops) hg hfw
+  rw [← hinit] at d1 d4 d5
+  refine ⟨D, by rw [reads_eq]; exact d1, d2, d3, by rw [reads_eq]; exact d4, ?_⟩
+  intro k hk hK hall
+  rw [run_rcv]
+  exact d5 k hk hK (fun i hi => by rw [← pushed_eq]; exact hall i hi)
 
 /-! ## tests by evaluation and non-vacuity (`decide` on concrete runs — these are tests, not theorems) -/
 
